@@ -57,6 +57,9 @@ class Layout:
                         axes.add(mx.get('axis'))
                     elif mx.get('kind') == 'carry' and isinstance(mx.get('of'), Poly):
                         collect(mx.get('of'))
+                    elif mx.get('kind') == 'opaque' and x in T._floors:
+                        collect(T._floors[x][0])
+                        collect(T._floors[x][1])
             if isinstance(cnt, Poly):
                 collect(cnt)
             return ('loop', tuple(sorted(axes)))
@@ -118,7 +121,8 @@ class Layout:
                 wants = []
                 if len(axes) == 1:
                     k = axes[0]
-                    wants = [w for w in (self.S_blk[k], self.S_unit[k]) if w is not None]
+                    # an in-block unit coordinate exists only when the block is wider than one unit on that axis
+                    wants = [w for w in (self.S_blk[k], self.S_unit[k] if self.bvec[k] != C(1) else None) if w is not None]
                     # a loop over whole-axis units steps by the unit stride, legitimate when it equals blk/b_k
                     ok = coef in wants
                 elif len(axes) == 2 and axes == (0, 1):
